@@ -132,7 +132,7 @@ def _random_job(k):
     nyh = int(rng.integers(2, 7))
     ny = nyh if sym else 2 * nyh - 1
     # generic node layout, not aligned with x: swept, with dihedral, non-uniform
-    shape = ["swept", "all", "dihedral", "tapered"][k % 4]
+    shape = ["swept", "all", "dihedral", "tapered", "steep"][k % 5]
     fm = B.full_mesh(2, 2 * nyh - 1, shape, span=float(rng.uniform(8, 30)), chord=float(rng.uniform(1, 3)), rng=rng, jitter=0.03, asym=0.0 if sym else 0.4)
     mesh = B.half_of(fm, "L") if sym else fm
     if not sym and k % 4 == 1:
